@@ -584,3 +584,32 @@ def plain_decimal(d, q):
     if k < len(d):
         return d[:-k] + "." + d[-k:]
     return "0." + "0" * (k - len(d)) + d if k < 60 else None
+
+
+def exact_tie_radix_ops(rng, fs, rads, per_radix=6, lossy=False):
+    """even radices: the exact half-way point (2^p + odd) * 2^-k between two adjacent floats has a FINITE expansion with
+    k fraction digits; these reach the big-integer slow path with large powers of the radix (k up to a few hundred)"""
+    ops = []
+    for r in rads:
+        if r % 2 or r == 10:
+            continue
+        fmt = fmt_hex(pack(r))
+        for ty, (p, eb) in FLOAT_TYPES.items():
+            kmax = 300 if ty == "f64" else 100
+            for _ in range(per_radix):
+                k = rng.choice([1, 2, 7, 30, 59, 60, 61, 109, 110, 111, 119, 120, 121, 150, 220, kmax])
+                k = min(k, kmax)
+                odd = (1 << p) | rng.getrandbits(p) | 1          # p+1 bits, odd  => exact tie between two p-bit floats
+                num = odd * r ** k
+                if num % (1 << k):
+                    continue
+                digits = to_radix(num >> k, r)                     # value * r^k, an integer
+                if len(digits) <= k:
+                    digits = "0" * (k - len(digits) + 1) + digits
+                s = digits[:-k] + "." + digits[-k:]
+                for v in (s, s + "0" * 5 + "1", s.rstrip("0")):
+                    ops.append(pf_op(ty, fmt, v, r, partial=rng.choice([0, 1]), lossy=lossy))
+                # the same tie scaled by a power of the radix through the exponent
+                q = rng.randint(-20, 20)
+                ops.append(pf_op(ty, fmt, lit(digits, q - k - q, r, r, point=len(digits) - k) if False else s + chr(exp_char(r)) + "0", r, lossy=lossy))
+    return ops
